@@ -4,6 +4,8 @@ package main
 
 import (
 	"fmt"
+	"math/big"
+	"strings"
 
 	"github.com/llir/llvm/asm"
 	"github.com/llir/llvm/ir/types"
@@ -39,7 +41,23 @@ func runC16(c *config) {
 		add(&tyTree{kind: byte(k)})
 	}
 	for i := 0; i < 250*c.scale; i++ {
-		add(g.any(1 + r.intn(4)))
+		add(c16Widen(r, g.any(1+r.intn(4)), 35))
+	}
+	// every boundary length in an array, alone and nested (under a pointer, as a struct field, as the element and
+	// as the container of another array, as a parameter of a function type); the boundary vector lengths
+	i8 := func() *tyTree { return &tyTree{kind: 'i', n: 8} }
+	for _, l := range c16ArrayBounds {
+		arr := func() *tyTree { return &tyTree{kind: 'A', n: l, children: []*tyTree{i8()}} }
+		add(arr())
+		add(&tyTree{kind: 'p', children: []*tyTree{arr()}})
+		add(&tyTree{kind: 'S', children: []*tyTree{{kind: 'i', n: 1}, arr()}})
+		add(&tyTree{kind: 'A', n: 2, children: []*tyTree{arr()}})
+		add(&tyTree{kind: 'A', n: l, children: []*tyTree{{kind: 'A', n: 2, children: []*tyTree{{kind: 'f', n: 2}}}}})
+		add(&tyTree{kind: 'F', children: []*tyTree{{kind: 'v'}, {kind: 'p', children: []*tyTree{arr()}}}})
+	}
+	for _, l := range c16VectorBounds {
+		add(&tyTree{kind: 'V', n: l, children: []*tyTree{i8()}})
+		add(&tyTree{kind: 'V', flag: true, n: l, children: []*tyTree{{kind: 'f', n: 1}}})
 	}
 	// every identified struct of the universe next to the literal struct with the very same fields
 	// (an identified struct is identified by its name, never by its body), also nested
@@ -80,6 +98,11 @@ func runC16(c *config) {
 		built[i] = t.build(u)
 		s := built[i].String()
 		o.Case("ty_string", []string{t.enc()}, []string{hx(s)})
+		if want := c16Text(t); s != want {
+			o.Fail("string_is_llvm_text", "", "String() of a type is not the LLVM text of the type the generator built", map[string]string{"t": t.enc(), "got": s, "want": want})
+		} else {
+			o.Pass("string_is_llvm_text")
+		}
 		o.Nontrivial(t.enc())
 		if i < 3 {
 			o.Sample(map[string]interface{}{"type": s, "encoding": t.enc()})
@@ -176,9 +199,47 @@ func runC16(c *config) {
 			o.Pass("distinguishes")
 		}
 	}
+	// lengths that differ only beyond the low 31 / 32 / 63 bits (what a narrower or a signed representation of the
+	// length would identify): distinguished by Equal and by String, in arrays and vectors, alone and nested
+	for k := 0; k < 400*c.scale; k++ {
+		base := c16WideLen(r)
+		if r.chance(30) {
+			base = uint64(r.intn(8))
+		}
+		kind := byte('A')
+		deltas := []uint64{1 << 31, 1 << 32, 1 << 63, 1<<63 + 1<<32, 1<<64 - 1<<32}
+		if r.chance(25) {
+			kind = 'V'
+			base = 1 + base%(1<<31-1)
+			deltas = []uint64{1 << 31, 1 << 16}
+		}
+		other := base + deltas[r.intn(len(deltas))] // modulo 2^64: still a different length
+		mk := func(l uint64) *tyTree {
+			t := &tyTree{kind: kind, n: l, children: []*tyTree{{kind: 'i', n: 8}}}
+			switch k % 4 {
+			case 1:
+				t = &tyTree{kind: 'p', children: []*tyTree{t}}
+			case 2:
+				t = &tyTree{kind: 'S', children: []*tyTree{{kind: 'i', n: 32}, t}}
+			case 3:
+				t = &tyTree{kind: 'A', n: 3, children: []*tyTree{t}}
+			}
+			return t
+		}
+		ta, tb := mk(base), mk(other)
+		a, b := ta.build(u), tb.build(u)
+		eq, oc := c16Equal(a, b)
+		o.Case("equal", []string{ta.enc(), tb.enc()}, []string{b2s(eq)})
+		o.Stat("length_lookalikes")
+		if oc != ocOk || eq || a.String() == b.String() {
+			o.Fail("distinguishes", "", "types whose lengths differ only in the high bits compare equal or print alike", map[string]string{"t": ta.enc(), "u": tb.enc(), "ts": a.String(), "us": b.String()})
+		} else {
+			o.Pass("distinguishes")
+		}
+	}
 	// preserved by printing a type and parsing it back
 	for k := 0; k < 1500*c.scale; k++ {
-		t := g.sized(1 + r.intn(4))
+		t := c16Widen(r, g.sized(1+r.intn(4)), 35)
 		ty := t.build(u)
 		src := ""
 		for name, s := range u.named {
@@ -203,10 +264,112 @@ func runC16(c *config) {
 		eq2, _ := c16Equal(back, ty)
 		if !eq1 || !eq2 || back.String() != ty.String() {
 			o.Fail("print_parse", "", "type parsed back is not equal", map[string]string{"src": src, "back": back.String()})
+		} else if want := c16Text(t); back.String() != want {
+			o.Fail("print_parse", "", "type parsed back does not read as the type the generator built", map[string]string{"src": src, "back": back.String(), "want": want})
 		} else {
 			o.Pass("print_parse")
 		}
 	}
+}
+
+// ---- lengths at the boundaries of their range
+//
+// An array length is any uint64 (LLVM: uint64_t), a vector length any non-zero 32-bit unsigned.  The generic type
+// generator draws small lengths only; c16Widen redraws the lengths of some array and vector nodes of a tree from
+// the boundaries of the range (the powers of two where a narrower or a signed representation wraps) and from
+// random wide values.
+
+var c16ArrayBounds = []uint64{1<<31 - 1, 1 << 31, 1<<32 - 1, 1 << 32, 1<<32 + 1, 1<<63 - 1, 1 << 63, 1<<63 + 1, 1<<64 - 2, 1<<64 - 1}
+var c16VectorBounds = []uint64{1<<15 - 1, 1 << 16, 1<<31 - 1, 1 << 31, 1<<32 - 1}
+
+func c16WideLen(r *rng) uint64 {
+	switch r.intn(4) {
+	case 0:
+		return r.next() // any 64-bit value
+	case 1:
+		return r.next() | 1<<63 // top bit set
+	default:
+		return c16ArrayBounds[r.intn(len(c16ArrayBounds))]
+	}
+}
+
+func c16Widen(r *rng, t *tyTree, pct int) *tyTree {
+	for _, n := range t.nodes() {
+		switch n.kind {
+		case 'A':
+			if r.chance(pct) {
+				n.n = c16WideLen(r)
+			}
+		case 'V':
+			if r.chance(pct / 2) {
+				if r.coin() {
+					n.n = c16VectorBounds[r.intn(len(c16VectorBounds))]
+				} else {
+					n.n = 1 + r.next()%(1<<32-1)
+				}
+			}
+		}
+	}
+	return t
+}
+
+// c16Text renders a type tree as LLVM writes the type: the generator's own rendering, independent of the printers
+// under test (lengths, widths and address spaces as unsigned decimals).
+func c16Text(t *tyTree) string {
+	u := func(x uint64) string { return new(big.Int).SetUint64(x).String() }
+	switch t.kind {
+	case 'v':
+		return "void"
+	case 'm':
+		return "x86_mmx"
+	case 'l':
+		return "label"
+	case 'k':
+		return "token"
+	case 'M':
+		return "metadata"
+	case 'i':
+		return "i" + u(t.n)
+	case 'f':
+		return [...]string{"half", "float", "double", "x86_fp80", "fp128", "ppc_fp128"}[t.n]
+	case 'p':
+		if t.n != 0 {
+			return c16Text(t.children[0]) + " addrspace(" + u(t.n) + ")*"
+		}
+		return c16Text(t.children[0]) + "*"
+	case 'V':
+		if t.flag {
+			return "<vscale x " + u(t.n) + " x " + c16Text(t.children[0]) + ">"
+		}
+		return "<" + u(t.n) + " x " + c16Text(t.children[0]) + ">"
+	case 'A':
+		return "[" + u(t.n) + " x " + c16Text(t.children[0]) + "]"
+	case 'S':
+		var fs []string
+		for _, c := range t.children {
+			fs = append(fs, c16Text(c))
+		}
+		body := "{}"
+		if len(fs) > 0 {
+			body = "{ " + strings.Join(fs, ", ") + " }"
+		}
+		if t.flag {
+			return "<" + body + ">"
+		}
+		return body
+	case 'N':
+		return "%" + quoteIfNeeded(t.name)
+	case 'F':
+		var ps []string
+		for _, c := range t.children[1:] {
+			ps = append(ps, c16Text(c))
+		}
+		if t.flag {
+			ps = append(ps, "...")
+		}
+		return c16Text(t.children[0]) + " (" + strings.Join(ps, ", ") + ")"
+	}
+	panic("bad type tree")
 }
 
 func quoteIfNeeded(name string) string {
